@@ -501,3 +501,715 @@ Proof.
   intros rs Hp id q. apply forest_chains; [|exact Hp].
   apply Forall_forall. intros r _ Hr. now apply route_chains.
 Qed.
+
+(** ================================================================================
+    Part C — on a tame chain (no optional, no '/' inside static texts, "/" and the
+    wildcard only last) and a path none of whose components properly extends a static
+    text, the chain consumes the path exactly like its table pattern
+    ================================================================================ *)
+From LV Require Import Router.Flat.
+
+Lemma bytes_eqb_eq : forall a b, bytes_eqb a b = true <-> a = b.
+Proof.
+  induction a as [|x a IH]; destruct b as [|y b]; cbn [bytes_eqb]; split; intros H;
+    try reflexivity; try discriminate.
+  - apply andb_prop in H. destruct H as [H1 H2]. apply N.eqb_eq in H1. apply IH in H2. now subst.
+  - inversion H; subst. rewrite N.eqb_refl. cbn. now apply IH.
+Qed.
+
+Definition at_boundary (q : bytes) : bool :=
+  match q with [] => true | c :: _ => c =? slash end.
+
+Definition Inv (cores : list bytes) (q : bytes) : Prop :=
+  at_boundary q = true /\ kb cores q = false.
+
+Lemma kb_suffix : forall cores a r, kb cores (a ++ r) = false -> kb cores r = false.
+Proof.
+  induction a as [|c a IH]; cbn [app kb]; intros r H; auto.
+  apply orb_false_iff in H. destruct H as [_ H]. auto.
+Qed.
+
+Lemma is_prefix_firstn : forall s q, is_prefix s q = true -> firstn (length s) q = s.
+Proof. intros s q H. now apply bytes_eqb_eq. Qed.
+
+Lemma is_prefix_split : forall s q, is_prefix s q = true -> q = s ++ skipn (length s) q.
+Proof.
+  intros s q H. rewrite <- (is_prefix_firstn s q H) at 1. symmetry. apply firstn_skipn.
+Qed.
+
+Lemma is_prefix_cons : forall c s c' q,
+  is_prefix (c :: s) (c' :: q) = (c' =? c) && is_prefix s q.
+Proof. reflexivity. Qed.
+
+Lemma is_prefix_nil_r : forall c s, is_prefix (c :: s) [] = false.
+Proof. reflexivity. Qed.
+
+Lemma static_loop_spec :
+  forall core, has_slash core = false ->
+  forall test has ml,
+    static_loop test core has ml =
+    if is_prefix core test
+    then Some (match core with [] => has | _ => true end, (ml + length core)%nat)
+    else None.
+Proof.
+  induction core as [|n core IH]; intros Hns test has ml.
+  - unfold is_prefix. cbn [length firstn bytes_eqb]. rewrite Nat.add_0_r.
+    destruct test; reflexivity.
+  - cbn [has_slash existsb] in Hns. apply orb_false_iff in Hns. destruct Hns as [Hn Hns].
+    destruct test as [|c test]; [reflexivity|].
+    rewrite is_prefix_cons. cbn [static_loop].
+    destruct (c =? slash) eqn:Ec.
+    + apply N.eqb_eq in Ec. subst c. rewrite N.eqb_sym, Hn. reflexivity.
+    + destruct (c =? n) eqn:En; cbn [andb]; [|reflexivity].
+      rewrite (IH Hns). destruct (is_prefix core test); [|reflexivity].
+      cbn [length]. rewrite Nat.add_succ_r. cbn [Nat.add]. destruct core; reflexivity.
+Qed.
+
+Lemma static_test_empty : forall q, static_test [] q = TSome [] q [].
+Proof.
+  intros q. unfold static_test. cbn [starts_with_slash tl].
+  rewrite orb_true_r, andb_true_r.
+  assert (H : forall t, static_loop t [] true 0 = Some (true, 0%nat)) by (destruct t; reflexivity).
+  destruct (starts_with_slash q); cbn [tl]; rewrite H; reflexivity.
+Qed.
+
+Lemma static_test_slash : forall q1, static_test [slash] (slash :: q1) = TSome [slash] q1 [].
+Proof.
+  intros q1. unfold static_test. cbn [starts_with_slash tl]. rewrite N.eqb_refl. cbn [andb orb tl].
+  assert (H : static_loop q1 [] true 1 = Some (true, 1%nat)) by (destruct q1; reflexivity).
+  rewrite H. reflexivity.
+Qed.
+
+Lemma static_test_slash_nil : static_test [slash] [] = TNone.
+Proof. reflexivity. Qed.
+
+Lemma usable_core_ne : forall c, usable_core c = true -> c <> [] /\ has_slash c = false.
+Proof.
+  intros c H. destruct c; [discriminate|]. split; [discriminate|].
+  unfold usable_core in H. now apply negb_true_iff in H.
+Qed.
+
+Lemma static_test_tame_nil : forall t, usable_core (static_core t) = true -> static_test t [] = TNone.
+Proof.
+  intros t H. apply usable_core_ne in H. destruct H as [Hne _].
+  unfold static_test. cbn [starts_with_slash andb tl].
+  destruct t as [|c t]; [now cbn in Hne|]. cbn [static_loop].
+  destruct t; reflexivity.
+Qed.
+
+Lemma static_test_tame :
+  forall t q1, usable_core (static_core t) = true ->
+  static_test t (slash :: q1) =
+  if is_prefix (static_core t) q1
+  then TSome (slash :: static_core t) (skipn (length (static_core t)) q1) []
+  else TNone.
+Proof.
+  intros t q1 H. pose proof (usable_core_ne _ H) as [Hne Hns].
+  unfold static_test. cbn [starts_with_slash tl]. rewrite N.eqb_refl.
+  destruct t as [|c t]; [now cbn in Hne|].
+  assert (Hthis : (if true && (starts_with_slash (c :: t) || false) then tl (c :: t) else c :: t)
+                  = static_core (c :: t)).
+  { cbn [starts_with_slash static_core tl andb orb]. destruct (c =? slash); reflexivity. }
+  assert (Hhas : match c :: t with [] => true | [c0] => c0 =? slash | _ => false end = false).
+  { destruct t as [|c2 t]; [|reflexivity].
+    cbn [static_core] in Hne, Hns. destruct (c =? slash) eqn:E; [now elim Hne|reflexivity]. }
+  rewrite Hhas.
+  change (match c :: t with [] => true | _ :: _ => false end) with false.
+  rewrite Hthis.
+  rewrite (static_loop_spec _ Hns).
+  destruct (is_prefix (static_core (c :: t)) q1) eqn:Ep; [|reflexivity].
+  destruct (static_core (c :: t)) as [|c0 core] eqn:Ec; [now elim Hne|].
+  cbn [Nat.add firstn skipn]. rewrite <- Ec in *.
+  now rewrite (is_prefix_firstn _ _ Ep).
+Qed.
+
+Lemma is_boundary_run : forall q, is_boundary q (run_len q) = true.
+Proof.
+  induction q as [|c q IH]; [reflexivity|]. cbn [run_len].
+  destruct (c =? slash) eqn:E.
+  - apply N.eqb_eq in E. subst c. reflexivity.
+  - exact IH.
+Qed.
+
+Lemma skipn_run_boundary : forall q, at_boundary (skipn (run_len q) q) = true.
+Proof.
+  induction q as [|c q IH]; [reflexivity|]. cbn [run_len].
+  destruct (c =? slash) eqn:E; [cbn [skipn at_boundary]; exact E|exact IH].
+Qed.
+
+Lemma param_test_nil : forall n, param_like false n [] = TNone.
+Proof. reflexivity. Qed.
+
+Lemma param_test_boundary :
+  forall n q1,
+    param_like false n (slash :: q1) =
+    match run_len q1 with
+    | O => TNone
+    | S _ => TSome (slash :: firstn (run_len q1) q1) (skipn (run_len q1) q1)
+                   [(n, firstn (run_len q1) q1)]
+    end.
+Proof.
+  intros n q1. unfold param_like, after_first. rewrite N.eqb_refl.
+  destruct (run_len q1) as [|k] eqn:E; [reflexivity|].
+  cbn [Nat.add Nat.eqb orb andb].
+  change (is_boundary (slash :: q1) (S (S k))) with (is_boundary q1 (S k)).
+  rewrite <- E, is_boundary_run. reflexivity.
+Qed.
+
+Lemma wild_test_nil : forall n, wild_test n [] = TSome [] [] [(n, [])].
+Proof. reflexivity. Qed.
+
+Lemma wild_test_boundary : forall n q1, wild_test n (slash :: q1) = TSome (slash :: q1) [] [(n, q1)].
+Proof.
+  intros n q1. unfold wild_test, after_first. rewrite N.eqb_refl. cbn [Nat.add].
+  assert (Hb : is_boundary (slash :: q1) (S (length q1)) = true).
+  { unfold is_boundary. cbn [nth_error].
+    assert (nth_error q1 (length q1) = None) as -> by (apply nth_error_None; lia). reflexivity. }
+  rewrite Hb. cbn [firstn skipn]. now rewrite firstn_all, skipn_all.
+Qed.
+
+(** ---- the pattern side ---- *)
+Lemma spre_lit : forall w T q, has_slash w = false ->
+  spre (map TChr w ++ T) q = if is_prefix w q then spre T (skipn (length w) q) else None.
+Proof.
+  induction w as [|c w IH]; intros T q Hns; [reflexivity|].
+  cbn [has_slash existsb] in Hns. apply orb_false_iff in Hns. destruct Hns as [Hc Hns].
+  cbn [map app spre]. rewrite Hc.
+  destruct q as [|c' q]; [reflexivity|].
+  rewrite is_prefix_cons. destruct (c' =? c); cbn [andb]; [|reflexivity].
+  now rewrite IH.
+Qed.
+
+Lemma spre_slash_lit : forall core T q1, core <> [] -> has_slash core = false ->
+  spre (TChr slash :: map TChr core ++ T) (slash :: q1) =
+  if is_prefix core q1 then spre T (skipn (length core) q1) else None.
+Proof.
+  intros core T q1 Hne Hns. destruct core as [|c core]; [now elim Hne|].
+  rewrite <- (spre_lit (c :: core) T q1 Hns).
+  cbn [map app]. cbn [spre]. rewrite !N.eqb_refl. reflexivity.
+Qed.
+
+Lemma spre_slash_lit_nil : forall core T, core <> [] ->
+  spre (TChr slash :: map TChr core ++ T) [] = None.
+Proof.
+  intros core T Hne. destruct core as [|c core]; [now elim Hne|]. reflexivity.
+Qed.
+
+Lemma static_toks_tame : forall t, usable_core (static_core t) = true ->
+  seg_toks (PStatic t) = TChr slash :: map TChr (static_core t).
+Proof.
+  intros t H. apply usable_core_ne in H. destruct H as [Hne _].
+  destruct t as [|c t]; [now cbn in Hne|].
+  unfold seg_toks, sep, needs_sep, static_core.
+  destruct (c =? slash) eqn:E; cbn [negb app]; [|reflexivity].
+  apply N.eqb_eq in E. now subst c.
+Qed.
+
+(** ---- tame chains ---- *)
+Definition trivial_leaf (x : seg) : bool :=
+  match x with SUnit => true | SStatic [] => true | _ => false end.
+
+Definition tame_static (t : bytes) : bool :=
+  match t with [] => true | _ => usable_core (static_core t) end.
+
+Fixpoint tame_chain (L : list seg) : bool :=
+  match L with
+  | [] => true
+  | x :: L' =>
+      match x with
+      | SStatic t => if bytes_eqb t [slash] then forallb trivial_leaf L'
+                     else tame_static t && tame_chain L'
+      | SParam n => name_ok n && tame_chain L'
+      | SWild n => name_ok n && forallb trivial_leaf L'
+      | SUnit => tame_chain L'
+      | SOpt _ => false
+      | STuple _ => false
+      end
+  end.
+
+Definition core_in (cores : list bytes) (x : seg) : Prop :=
+  match x with
+  | SStatic t => usable_core (static_core t) = true -> In (static_core t) cores
+  | _ => True
+  end.
+
+Definition tproj (t : tres) : option (option (params * bytes)) :=
+  match t with
+  | TPanic => None
+  | TNone => Some None
+  | TSome _ r ps => Some (Some (ps, r))
+  end.
+
+Lemma trivial_seq : forall L, forallb trivial_leaf L = true ->
+  (forall q, seqT (map seg_test L) q = TSome [] q []) /\ toks (flat_map gen_path L) = [].
+Proof.
+  induction L as [|x L IH]; intros H; [split; reflexivity|].
+  cbn [forallb] in H. apply andb_prop in H. destruct H as [Hx HL].
+  destruct (IH HL) as [IH1 IH2]. split.
+  - intros q. cbn [map seqT].
+    destruct x as [[|? ?]| | | | |]; try discriminate; cbn [seg_test].
+    + rewrite static_test_empty, IH1. reflexivity.
+    + rewrite IH1. reflexivity.
+  - cbn [flat_map]. unfold toks in *. rewrite flat_map_app, IH2, app_nil_r.
+    destruct x as [[|? ?]| | | | |]; try discriminate; reflexivity.
+Qed.
+
+Lemma toks_cons : forall x L,
+  toks (flat_map gen_path (x :: L)) = toks (gen_path x) ++ toks (flat_map gen_path L).
+Proof. intros. unfold toks. cbn [flat_map]. now rewrite flat_map_app. Qed.
+
+Lemma name_ok_sep : forall n, name_ok n = true -> sep n = [TChr slash].
+Proof. intros n H. unfold sep. unfold name_ok in H. rewrite H. reflexivity. Qed.
+
+Theorem chain_spre :
+  forall cores L,
+    tame_chain L = true -> Forall (core_in cores) L ->
+    forall q, Inv cores q ->
+    tproj (seqT (map seg_test L) q) = Some (spre (toks (flat_map gen_path L)) q).
+Proof.
+  intros cores. induction L as [|x L IH]; intros Ht Hc q [Hb Hk]; [reflexivity|].
+  inversion Hc as [|? ? Hx HL]; subst.
+  rewrite toks_cons. cbn [map seqT].
+  destruct x as [t|n|n|n| |l]; cbn [tame_chain] in Ht; try discriminate.
+  - (* static *)
+    destruct (bytes_eqb t [slash]) eqn:Es.
+    + apply bytes_eqb_eq in Es. subst t.
+      destruct (trivial_seq L Ht) as [Hseq Htoks]. rewrite Htoks.
+      destruct q as [|c q1].
+      * reflexivity.
+      * cbn [at_boundary] in Hb. apply N.eqb_eq in Hb. subst c.
+        cbn [seg_test]. rewrite static_test_slash, Hseq.
+        cbn [gen_path toks flat_map seg_toks map app tproj].
+        change (sep [slash]) with (@nil tok). cbn [app spre].
+        rewrite !N.eqb_refl. reflexivity.
+    + apply andb_prop in Ht. destruct Ht as [Hts HtL].
+      destruct t as [|c0 t0].
+      * (* "" *)
+        cbn [seg_test]. rewrite static_test_empty.
+        cbn [gen_path toks flat_map seg_toks sep needs_sep map app].
+        specialize (IH HtL HL q (conj Hb Hk)).
+        destruct (seqT (map seg_test L) q); cbn [tproj app] in *; exact IH.
+      * set (t := c0 :: t0) in *. cbn [tame_static] in Hts.
+        change (match t with [] => true | _ :: _ => usable_core (static_core t) end)
+          with (usable_core (static_core t)) in Hts.
+        pose proof (usable_core_ne _ Hts) as [Hne Hns].
+        cbn [gen_path toks flat_map]. rewrite app_nil_r, (static_toks_tame _ Hts).
+        cbn [seg_test].
+        destruct q as [|c q1].
+        -- rewrite (static_test_tame_nil _ Hts).
+           change ((TChr slash :: map TChr (static_core t)) ++ toks (flat_map gen_path L))
+             with (TChr slash :: map TChr (static_core t) ++ toks (flat_map gen_path L)).
+           now rewrite spre_slash_lit_nil.
+        -- cbn [at_boundary] in Hb. apply N.eqb_eq in Hb. subst c.
+           rewrite (static_test_tame _ _ Hts).
+           change ((TChr slash :: map TChr (static_core t)) ++ toks (flat_map gen_path L))
+             with (TChr slash :: map TChr (static_core t) ++ toks (flat_map gen_path L)).
+           rewrite (spre_slash_lit _ _ _ Hne Hns).
+           destruct (is_prefix (static_core t) q1) eqn:Ep; [|reflexivity].
+           (* the remainder is again at a component boundary *)
+           assert (Hin : In (static_core t) cores) by (apply Hx; exact Hts).
+           cbn [kb] in Hk. rewrite N.eqb_refl in Hk. cbn [andb] in Hk.
+           apply orb_false_iff in Hk. destruct Hk as [Hbad Hk1].
+           assert (Hb' : at_boundary (skipn (length (static_core t)) q1) = true).
+           { pose proof (existsb_false_forall _ _ _ Hbad) as Hall.
+             rewrite Forall_forall in Hall. specialize (Hall _ Hin).
+             unfold bad_at in Hall. rewrite Ep in Hall. cbn [andb] in Hall.
+             destruct (skipn (length (static_core t)) q1) as [|c r]; [reflexivity|].
+             cbn [at_boundary]. now apply negb_false_iff in Hall. }
+           assert (Hk' : kb cores (skipn (length (static_core t)) q1) = false).
+           { apply (kb_suffix cores (static_core t)).
+             rewrite <- (is_prefix_split _ _ Ep). exact Hk1. }
+           specialize (IH HtL HL _ (conj Hb' Hk')).
+           destruct (seqT (map seg_test L) (skipn (length (static_core t)) q1));
+             cbn [tproj app] in *; exact IH.
+  - (* param *)
+    apply andb_prop in Ht. destruct Ht as [Hn HtL].
+    cbn [gen_path toks flat_map seg_toks]. rewrite app_nil_r, (name_ok_sep _ Hn).
+    cbn [seg_test app].
+    destruct q as [|c q1].
+    + reflexivity.
+    + cbn [at_boundary] in Hb. apply N.eqb_eq in Hb. subst c.
+      rewrite param_test_boundary. cbn [spre]. rewrite !N.eqb_refl.
+      destruct (run_len q1) as [|k] eqn:Ek; [reflexivity|]. rewrite <- Ek.
+      assert (Hb' : at_boundary (skipn (run_len q1) q1) = true) by apply skipn_run_boundary.
+      assert (Hk' : kb cores (skipn (run_len q1) q1) = false).
+      { apply (kb_suffix cores (slash :: firstn (run_len q1) q1)).
+        cbn [app]. now rewrite firstn_skipn. }
+      specialize (IH HtL HL _ (conj Hb' Hk')).
+      destruct (seqT (map seg_test L) (skipn (run_len q1) q1)); cbn [tproj] in *.
+      * injection IH as IH'. rewrite <- IH'. reflexivity.
+      * discriminate.
+      * injection IH as IH'. rewrite <- IH'. reflexivity.
+  - (* wildcard, last *)
+    apply andb_prop in Ht. destruct Ht as [Hn HtL].
+    destruct (trivial_seq L HtL) as [Hseq Htoks]. rewrite Htoks, app_nil_r.
+    cbn [gen_path toks flat_map seg_toks]. rewrite app_nil_r, (name_ok_sep _ Hn).
+    cbn [seg_test app].
+    destruct q as [|c q1].
+    + rewrite wild_test_nil, Hseq. reflexivity.
+    + cbn [at_boundary] in Hb. apply N.eqb_eq in Hb. subst c.
+      rewrite wild_test_boundary, Hseq. cbn [spre tproj]. rewrite !N.eqb_refl.
+      now rewrite app_nil_r.
+  - (* unit *)
+    cbn [seg_test gen_path toks flat_map app].
+    specialize (IH Ht HL q (conj Hb Hk)).
+    destruct (seqT (map seg_test L) q); cbn [tproj app] in *; exact IH.
+Qed.
+
+(** ================================================================================
+    Part D — the table side, and the theorem
+    ================================================================================ *)
+Definition is_popt (x : pseg) : bool := match x with POpt _ => true | _ => false end.
+
+Lemma seg_optional_gen : forall s, seg_optional s = existsb is_popt (gen_path s).
+Proof.
+  induction s using seg_ind'; try reflexivity.
+  cbn [seg_optional gen_path]. induction H as [|x l Hx Hl IH]; [reflexivity|].
+  cbn [existsb flat_map]. now rewrite existsb_app, Hx, IH.
+Qed.
+
+Fixpoint wf_tree_r (r : route) : bool :=
+  match r with
+  | Route _ None => true
+  | Route _ (Some ks) => match ks with [] => false | _ => true end && forallb wf_tree_r ks
+  end.
+(** every [.child(..)] tuple has at least one route *)
+Definition wf_tree (rs : list route) : bool := forallb wf_tree_r rs.
+
+Lemma gen_route_nonempty : forall r, wf_tree_r r = true -> gen_route r <> [].
+Proof.
+  induction r using route_ind'; intros Hw; cbn [gen_route]; [discriminate|].
+  cbn [wf_tree_r] in Hw. apply andb_prop in Hw. destruct Hw as [Hne Hks].
+  destruct ks as [|k ks]; [discriminate|].
+  inversion H; subst. cbn [forallb] in Hks. apply andb_prop in Hks. destruct Hks as [Hk _].
+  cbn [flat_map]. intros Hc. apply map_eq_nil in Hc. apply app_eq_nil in Hc.
+  destruct Hc as [Hc _]. now apply H2 in Hk.
+Qed.
+
+Lemma existsb_map_app_false :
+  forall (g : pseg -> bool) A Ls,
+    existsb (existsb g) (map (app A) Ls) = false ->
+    (Ls <> [] -> existsb g A = false) /\ existsb (existsb g) Ls = false.
+Proof.
+  intros g A. induction Ls as [|L Ls IH]; cbn [map existsb]; intros H.
+  - split; [intros Hc; now elim Hc|reflexivity].
+  - apply orb_false_iff in H. destruct H as [H1 H2].
+    rewrite existsb_app in H1. apply orb_false_iff in H1. destruct H1 as [HA HL].
+    destruct (IH H2) as [_ IH2]. split; [intros _; exact HA|].
+    now rewrite HL, IH2.
+Qed.
+
+Lemma existsb_flat_map_false :
+  forall (A B : Type) (f : B -> bool) (g : A -> list B) l,
+    existsb f (flat_map g l) = false -> Forall (fun x => existsb f (g x) = false) l.
+Proof.
+  induction l as [|x l IH]; cbn [flat_map]; intros H; constructor.
+  - rewrite existsb_app in H. now apply orb_false_iff in H.
+  - apply IH. rewrite existsb_app in H. now apply orb_false_iff in H.
+Qed.
+
+Lemma plain_from_flat :
+  forall r, wf_tree_r r = true ->
+  existsb (existsb is_popt) (gen_route r) = false -> plain_route r = true.
+Proof.
+  induction r using route_ind'; intros Hw Hf; cbn [plain_route gen_route] in *.
+  - cbn [existsb] in Hf. rewrite orb_false_r in Hf. now rewrite seg_optional_gen, Hf.
+  - cbn [wf_tree_r] in Hw. apply andb_prop in Hw. destruct Hw as [Hne Hks].
+    apply existsb_map_app_false in Hf. destruct Hf as [Hs Hkids].
+    assert (Hne' : flat_map gen_route ks <> []).
+    { destruct ks as [|k ks]; [discriminate|].
+      cbn [forallb] in Hks. apply andb_prop in Hks. destruct Hks as [Hk _].
+      cbn [flat_map]. intros Hc. apply app_eq_nil in Hc. destruct Hc as [Hc _].
+      now apply gen_route_nonempty in Hk. }
+    rewrite seg_optional_gen, (Hs Hne'), Hne. cbn [negb andb].
+    apply existsb_flat_map_false in Hkids.
+    clear -H Hks Hkids. induction H as [|k ks Hk Hl IH]; [reflexivity|].
+    cbn [forallb] in *. apply andb_prop in Hks. destruct Hks as [Hwk Hwks].
+    inversion Hkids; subst. rewrite Hk, IH; auto.
+Qed.
+
+(** D2: the generated flat routes are the chains, segment by segment *)
+Lemma flat_map_flat_map : forall (A B C : Type) (f : B -> list C) (g : A -> list B) l,
+  flat_map f (flat_map g l) = flat_map (fun x => flat_map f (g x)) l.
+Proof.
+  induction l as [|x l IH]; [reflexivity|]. cbn [flat_map]. now rewrite flat_map_app, IH.
+Qed.
+
+Lemma gen_path_leaves : forall s, gen_path s = flat_map gen_path (leaf_list s).
+Proof.
+  induction s using seg_ind'; try (cbn [leaf_list flat_map gen_path]; now rewrite ?app_nil_r).
+  cbn [gen_path leaf_list]. rewrite flat_map_flat_map.
+  induction H as [|x l Hx Hl IH]; [reflexivity|]. cbn [flat_map]. now rewrite <- Hx, IH.
+Qed.
+
+Lemma map_flat_map : forall (A B C : Type) (f : B -> C) (g : A -> list B) l,
+  map f (flat_map g l) = flat_map (fun x => map f (g x)) l.
+Proof.
+  induction l as [|x l IH]; [reflexivity|]. cbn [flat_map]. now rewrite map_app, IH.
+Qed.
+
+Lemma gen_route_chains : forall r, gen_route r = map (flat_map gen_path) (chain_route r).
+Proof.
+  induction r using route_ind'; cbn [gen_route chain_route map].
+  - now rewrite <- gen_path_leaves.
+  - rewrite map_map.
+    assert (Hk : flat_map gen_route ks = map (flat_map gen_path) (flat_map chain_route ks)).
+    { rewrite map_flat_map. induction H as [|k ks Hk Hl IH]; [reflexivity|].
+      cbn [flat_map]. now rewrite Hk, IH. }
+    rewrite Hk, map_map. apply map_ext. intros L.
+    now rewrite flat_map_app, <- gen_path_leaves.
+Qed.
+
+Lemma gen_routes_chains : forall rs, gen_routes rs = map (flat_map gen_path) (chains rs).
+Proof.
+  intros rs. unfold gen_routes, chains. rewrite map_flat_map.
+  induction rs as [|r rs IH]; [reflexivity|]. cbn [flat_map]. now rewrite gen_route_chains, IH.
+Qed.
+
+(** D3: outside the known classes every chain is tame *)
+Definition is_leaf (x : seg) : bool := match x with STuple _ => false | _ => true end.
+
+Lemma leaf_list_leaves : forall s, Forall (fun x => is_leaf x = true) (leaf_list s).
+Proof.
+  induction s using seg_ind'; try (repeat constructor).
+  cbn [leaf_list]. induction H as [|x l Hx Hl IH]; [constructor|].
+  cbn [flat_map]. apply Forall_app. split; assumption.
+Qed.
+
+Lemma chain_route_leaves :
+  forall r, Forall (Forall (fun x => is_leaf x = true)) (chain_route r).
+Proof.
+  induction r using route_ind'; cbn [chain_route].
+  - repeat constructor. apply leaf_list_leaves.
+  - apply Forall_forall. intros L HL. apply in_map_iff in HL. destruct HL as (L0 & <- & HL0).
+    apply Forall_app. split; [apply leaf_list_leaves|].
+    apply in_flat_map in HL0. destruct HL0 as (k & Hk & HL0).
+    rewrite Forall_forall in H. specialize (H k Hk). rewrite Forall_forall in H. now apply H.
+Qed.
+
+Lemma trivial_from_flat : forall L, Forall (fun x => is_leaf x = true) L ->
+  forallb trivial_pseg (flat_map gen_path L) = true -> forallb trivial_leaf L = true.
+Proof.
+  induction 1 as [|x L Hx HL IH]; [reflexivity|]. cbn [flat_map forallb]. intros H.
+  rewrite forallb_app in H. apply andb_prop in H. destruct H as [H1 H2].
+  rewrite (IH H2), andb_true_r.
+  destruct x as [[|? ?]| | | | |]; try reflexivity; try discriminate.
+Qed.
+
+Lemma nil_from_flat : forall L, Forall (fun x => is_leaf x = true) L ->
+  flat_map gen_path L = [] -> forallb trivial_leaf L = true.
+Proof.
+  intros L HL H. apply trivial_from_flat; [exact HL|]. now rewrite H.
+Qed.
+
+Lemma tame_from_flat :
+  forall L, Forall (fun x => is_leaf x = true) L ->
+    existsb is_popt (flat_map gen_path L) = false ->
+    wf_flat (flat_map gen_path L) = true ->
+    slash_static_flat (flat_map gen_path L) = false ->
+    tame_chain L = true.
+Proof.
+  induction 1 as [|x L Hx HL IH]; [reflexivity|].
+  cbn [flat_map]. intros Ho Hw Hs.
+  destruct x as [t|n|n|n| |l]; cbn [gen_path app tame_chain] in *; try discriminate.
+  - (* static *)
+    cbn [existsb is_popt orb] in Ho. cbn [wf_flat] in Hw. cbn [slash_static_flat] in Hs.
+    apply orb_false_iff in Hs. destruct Hs as [Hs Hrest].
+    apply orb_false_iff in Hs. destruct Hs as [Htl Hsl].
+    destruct (bytes_eqb t [slash]) eqn:Et.
+    + cbn [andb] in Hsl. apply negb_false_iff in Hsl. now apply trivial_from_flat.
+    + rewrite (IH Ho Hw Hrest), andb_true_r.
+      destruct t as [|c t]; [reflexivity|]. cbn [tame_static static_core tl] in *.
+      destruct (c =? slash) eqn:Ec.
+      * destruct t as [|c2 t].
+        -- apply N.eqb_eq in Ec. subst c. cbn in Et. discriminate.
+        -- unfold usable_core. now rewrite Htl.
+      * unfold usable_core, has_slash. cbn [existsb]. rewrite Ec. cbn [orb].
+        fold (has_slash t). now rewrite Htl.
+  - (* param *)
+    cbn [existsb is_popt orb] in Ho. cbn [wf_flat] in Hw. cbn [slash_static_flat] in Hs.
+    apply andb_prop in Hw. destruct Hw as [Hn Hw]. now rewrite Hn, (IH Ho Hw Hs).
+  - (* wildcard *)
+    cbn [wf_flat] in Hw. apply andb_prop in Hw. destruct Hw as [Hn Hw]. rewrite Hn. cbn [andb].
+    apply nil_from_flat; [exact HL|]. destruct (flat_map gen_path L); [reflexivity|discriminate].
+  - (* unit *)
+    now apply IH.
+Qed.
+
+Lemma cores_from_flat :
+  forall base rs L, In L (chains rs) -> Forall (core_in (cores_of base rs)) L.
+Proof.
+  intros base rs L HL. apply Forall_forall. intros x Hx.
+  destruct x as [t| | | | |]; cbn [core_in]; auto. intros Hu.
+  unfold cores_of. apply filter_In. split; [|exact Hu].
+  apply in_or_app. left. apply in_map. apply in_flat_map.
+  exists (flat_map gen_path L). split.
+  - rewrite gen_routes_chains. now apply in_map.
+  - unfold statics_of. apply in_flat_map. exists (PStatic t). split; [|now left].
+    apply in_flat_map. exists (SStatic t). split; [exact Hx|now left].
+Qed.
+
+(** D4: the pattern side of the trailing-slash tolerance *)
+Lemma run_len_le : forall a, (run_len a <= length a)%nat.
+Proof. induction a as [|c a IH]; cbn [run_len length]; [lia|]. destruct (c =? slash); lia. Qed.
+
+Lemma run_len_snoc : forall a, run_len (a ++ [slash]) = run_len a.
+Proof.
+  induction a as [|c a IH]; cbn [app run_len].
+  - now rewrite N.eqb_refl.
+  - destruct (c =? slash); [reflexivity|now rewrite IH].
+Qed.
+
+Lemma spre_suffix : forall ts p b r, spre ts p = Some (b, r) -> exists a, p = a ++ r.
+Proof.
+  induction ts as [|t ts IH]; intros p b r H.
+  - inversion H; subst. now exists [].
+  - destruct t as [c|n|n]; cbn [spre] in H.
+    + destruct (if c =? slash then ts else []) as [|[c2|n2|n2] rest] eqn:E.
+      * destruct p as [|c' p']; [discriminate|]. destruct (c' =? c); [|discriminate].
+        apply IH in H. destruct H as [a ->]. now exists (c' :: a).
+      * destruct p as [|c' p']; [discriminate|]. destruct (c' =? c); [|discriminate].
+        apply IH in H. destruct H as [a ->]. now exists (c' :: a).
+      * destruct p as [|c' p']; [discriminate|]. destruct (c' =? c); [|discriminate].
+        apply IH in H. destruct H as [a ->]. now exists (c' :: a).
+      * destruct rest; [|discriminate].
+        destruct p as [|c' p'].
+        -- inversion H; subst. now exists [].
+        -- destruct (c' =? slash); [|discriminate]. inversion H; subst.
+           exists (c' :: p'). now rewrite app_nil_r.
+    + destruct (run_len p) as [|k] eqn:Ek; [discriminate|]. rewrite <- Ek in H.
+      destruct (spre ts (skipn (run_len p) p)) as [[b0 r0]|] eqn:E; [|discriminate].
+      inversion H; subst. apply IH in E. destruct E as [a Ha].
+      exists (firstn (run_len p) p ++ a). rewrite <- app_assoc, <- Ha. symmetry. apply firstn_skipn.
+    + discriminate.
+Qed.
+
+Lemma skipn_snoc : forall (k : nat) (a r : bytes),
+  (k <= length a)%nat -> skipn k (a ++ r) = skipn k a ++ r.
+Proof. intros. rewrite skipn_app. replace (k - length a)%nat with 0%nat by lia. reflexivity. Qed.
+
+Lemma firstn_snoc : forall (k : nat) (a r : bytes),
+  (k <= length a)%nat -> firstn k (a ++ r) = firstn k a.
+Proof.
+  intros. rewrite firstn_app. replace (k - length a)%nat with 0%nat by lia.
+  cbn [firstn]. now rewrite app_nil_r.
+Qed.
+
+Lemma spre_unsnoc : forall ts a b,
+  spre ts (a ++ [slash]) = Some (b, [slash]) -> spre ts a = Some (b, []).
+Proof.
+  induction ts as [|t ts IH]; intros a b H.
+  - cbn [spre] in *. inversion H as [[Hb Ha]].
+    assert (a = []) as -> by (destruct a as [|x [|y a]]; [reflexivity|discriminate|discriminate]).
+    reflexivity.
+  - destruct t as [c|n|n]; cbn [spre] in *.
+    + destruct (if c =? slash then ts else []) as [|[c2|n2|n2] rest] eqn:E;
+        try (destruct a as [|c' a']; cbn [app] in H;
+             [ destruct (slash =? c); [|discriminate];
+               apply spre_suffix in H; destruct H as [x Hx];
+               destruct x; discriminate
+             | destruct (c' =? c); [|discriminate]; now apply IH ]).
+      destruct rest; [|discriminate].
+      destruct (a ++ [slash]) as [|c' p']; [discriminate|].
+      destruct (c' =? slash); discriminate.
+    + rewrite run_len_snoc in H.
+      destruct (run_len a) as [|k] eqn:Ek; [discriminate|]. rewrite <- Ek in *.
+      pose proof (run_len_le a) as Hle.
+      rewrite skipn_snoc, firstn_snoc in H by exact Hle.
+      destruct (spre ts (skipn (run_len a) a ++ [slash])) as [[b0 r0]|] eqn:E; [|discriminate].
+      inversion H; subst. apply IH in E. now rewrite E.
+    + discriminate.
+Qed.
+
+Lemma spre_snoc : forall ts a b,
+  spre ts a = Some (b, []) ->
+  exists b' r', spre ts (a ++ [slash]) = Some (b', r') /\ rem_ok r' = true.
+Proof.
+  induction ts as [|t ts IH]; intros a b H.
+  - cbn [spre] in *. inversion H; subst. exists [], [slash]. split; [reflexivity|].
+    cbn [rem_ok]. now rewrite N.eqb_refl.
+  - destruct t as [c|n|n]; cbn [spre] in *.
+    + destruct (if c =? slash then ts else []) as [|[c2|n2|n2] rest] eqn:E;
+        try (destruct a as [|c' a']; [discriminate|]; cbn [app];
+             destruct (c' =? c); [|discriminate]; now apply IH in H).
+      destruct rest; [|discriminate].
+      destruct a as [|c' a']; cbn [app].
+      * rewrite N.eqb_refl. eexists _, []. split; reflexivity.
+      * destruct (c' =? slash); [|discriminate]. eexists _, []. split; reflexivity.
+    + rewrite run_len_snoc.
+      destruct (run_len a) as [|k] eqn:Ek; [discriminate|]. rewrite <- Ek in *.
+      pose proof (run_len_le a) as Hle.
+      rewrite skipn_snoc, firstn_snoc by exact Hle.
+      destruct (spre ts (skipn (run_len a) a)) as [[b0 r0]|] eqn:E; [|discriminate].
+      inversion H; subst. apply IH in E. destruct E as (b' & r' & E & Hr).
+      rewrite E. eexists _, r'. split; [reflexivity|exact Hr].
+    + discriminate.
+Qed.
+
+Lemma ends_with_slash_split : forall p, ends_with_slash p = true -> exists a, p = a ++ [slash].
+Proof.
+  intros p H. unfold ends_with_slash in H.
+  destruct (rev p) as [|c l] eqn:E; [discriminate|]. apply N.eqb_eq in H. subst c.
+  exists (rev l). rewrite <- (rev_involutive p), E. reflexivity.
+Qed.
+
+Lemma ends_with_slash_snoc : forall a, ends_with_slash (a ++ [slash]) = true.
+Proof. intros. unfold ends_with_slash. rewrite rev_app_distr. reflexivity. Qed.
+
+Lemma rem_ok_cases : forall r, rem_ok r = true -> r = [] \/ r = [slash].
+Proof.
+  intros [|c [|d r]] H; cbn [rem_ok] in H; auto; [|discriminate].
+  apply N.eqb_eq in H. subst. now right.
+Qed.
+
+Lemma flat_match_spre_ne :
+  forall ts p, is_some (match strict ts p with
+                        | Some b => Some b
+                        | None => if ends_with_slash p then strict ts (removelast p) else None
+                        end)
+               = match spre ts p with Some (_, r) => rem_ok r | None => false end.
+Proof.
+  intros ts p. unfold strict.
+  destruct (spre ts p) as [[b r]|] eqn:E.
+  - destruct r as [|c r].
+    + reflexivity.
+    + destruct (rem_ok (c :: r)) eqn:Er.
+      * apply rem_ok_cases in Er. destruct Er as [Er|Er]; [discriminate|]. inversion Er; subst.
+        destruct (spre_suffix _ _ _ _ E) as [a ->].
+        rewrite ends_with_slash_snoc, removelast_last.
+        now rewrite (spre_unsnoc _ _ _ E).
+      * destruct (ends_with_slash p) eqn:Ee; [|reflexivity].
+        apply ends_with_slash_split in Ee. destruct Ee as [a ->]. rewrite removelast_last.
+        destruct (spre ts a) as [[b2 [|? ?]]|] eqn:E2; try reflexivity.
+        apply spre_snoc in E2. destruct E2 as (b' & r' & E2 & Hr).
+        rewrite E in E2. inversion E2; subst. congruence.
+  - destruct (ends_with_slash p) eqn:Ee; [|reflexivity].
+    apply ends_with_slash_split in Ee. destruct Ee as [a ->]. rewrite removelast_last.
+    destruct (spre ts a) as [[b2 [|? ?]]|] eqn:E2; try reflexivity.
+    apply spre_snoc in E2. destruct E2 as (b' & r' & E2 & Hr). congruence.
+Qed.
+
+Lemma has_dslash_cons2 : forall a b p,
+  has_dslash (a :: b :: p) = ((a =? slash) && (b =? slash)) || has_dslash (b :: p).
+Proof. reflexivity. Qed.
+
+Lemma flat_match_spre :
+  forall l p, starts_with_slash p = true -> has_dslash p = false ->
+    is_some (flat_match l p)
+    = match spre (toks l) p with Some (_, r) => rem_ok r | None => false end.
+Proof.
+  intros l p Hs Hd. unfold flat_match, pattern.
+  destruct (toks l) as [|t ts] eqn:Et; [|apply flat_match_spre_ne].
+  cbn [spre]. destruct p as [|c p]; [discriminate|].
+  cbn [starts_with_slash] in Hs. apply N.eqb_eq in Hs. subst c.
+  destruct p as [|d p].
+  - reflexivity.
+  - unfold strict. cbn [spre]. rewrite N.eqb_refl. cbn [rem_ok].
+    destruct (ends_with_slash (slash :: d :: p)) eqn:Ee; [|reflexivity].
+    apply ends_with_slash_split in Ee. destruct Ee as [a Ha]. rewrite Ha, removelast_last.
+    destruct a as [|a0 [|a1 a]]; try reflexivity.
+    + cbn [spre]. destruct (a0 =? slash) eqn:E0; [|reflexivity].
+      cbn [app] in Ha. inversion Ha; subst.
+      rewrite has_dslash_cons2, N.eqb_refl in Hd. discriminate.
+    + cbn [spre]. destruct (a0 =? slash); reflexivity.
+Qed.
